@@ -44,12 +44,17 @@ type PathQuery struct {
 	Fn *ssa.Function
 	// Start: count from just after this instruction (nil = function entry).
 	Start ssa.Instruction
+	// StartBlock: count from the beginning of this block (overrides entry; ignored if Start is set).
+	StartBlock *ssa.BasicBlock
 	// Weight of an instruction: (min,max) events it contributes.
 	Weight func(in ssa.Instruction) (int, int)
 	// Exit selects the exit blocks that count (nil = all Return and explicit Panic exits).
 	Exit func(b *ssa.BasicBlock) bool
 	// Edge restricts the edges that may be traversed (nil = all feasible).
 	Edge func(from, to *ssa.BasicBlock) bool
+	// StopBlock, if set, makes reaching the beginning of that block terminal (e.g. a loop header:
+	// "paths of one iteration").
+	StopBlock *ssa.BasicBlock
 	// Stop, if set, makes a block terminal (counted as an exit) when it returns true
 	// for an instruction; events up to and including that instruction are counted.
 	Stop func(in ssa.Instruction) bool
@@ -72,11 +77,17 @@ func (q PathQuery) Count() Interval {
 	if q.Start != nil {
 		startBlock = q.Start.Block()
 		startIdx = InstrIndex(q.Start) + 1
+	} else if q.StartBlock != nil {
+		startBlock = q.StartBlock
 	}
 	// weights per block; the start block is split: index -1 represents the
 	// partial start block, so that a cycle back into the full start block is handled.
 	mk := func(b *ssa.BasicBlock, from int) node {
 		n := node{b: b}
+		if from == 0 && q.StopBlock == b {
+			n.terminal = true
+			return n
+		}
 		for i := from; i < len(b.Instrs); i++ {
 			in := b.Instrs[i]
 			if q.Weight != nil {
@@ -104,7 +115,14 @@ func (q PathQuery) Count() Interval {
 	}
 	// node ids: 0 = partial start; 1+i = block i (full)
 	nodes := make([]node, len(fn.Blocks)+1)
-	nodes[0] = mk(startBlock, startIdx)
+	if q.StopBlock != nil && q.StopBlock == startBlock && startIdx == 0 {
+		sb := q.StopBlock
+		q.StopBlock = nil
+		nodes[0] = mk(startBlock, 0)
+		q.StopBlock = sb
+	} else {
+		nodes[0] = mk(startBlock, startIdx)
+	}
 	for i, b := range fn.Blocks {
 		nodes[i+1] = mk(b, 0)
 	}
